@@ -160,6 +160,10 @@ def rule_de_async(text, dropped):
             edits.append((t.s, toks[i + 1].s, ''))
         if t.kind == 'punct' and t.text == '.' and i + 1 < len(toks) and toks[i + 1].text == 'await':
             edits.append((t.s, toks[i + 1].e, ''))
+        # `async move {` / `async {` block expressions become plain blocks
+        if t.kind == 'ident' and t.text == 'async' and i + 1 < len(toks) and toks[i + 1].text in ('move', '{'):
+            e = toks[i + 1].e if toks[i + 1].text == 'move' else t.e
+            edits.append((t.s, e, ''))
     for s, e, r in sorted(edits, reverse=True):
         text = text[:s] + r + _blank(text[s:e]) + text[e:]
     if edits:
